@@ -225,6 +225,11 @@ func (ch *channel) maybeTruncate(fcall *Fcall) error {
 		// msize.  This is more defensive than anything but will ensure that
 		// calls don't fail on sloppy servers.
 
+		// the request itself has to fit, like any other message.
+		if size := ch.msgmsize(fcall); size > ch.msize {
+			return overflowErr{size: size - ch.msize}
+		}
+
 		// first, craft the shape of the response message
 		resp := newFcall(fcall.Tag, MessageRread{})
 		overflow := uint32(ch.msgmsize(resp)) + msg.Count - uint32(ch.msize)
